@@ -7,7 +7,7 @@
     Part 5: chains of redirects of any length. *)
 From Coq Require Import Lia ZArith List.
 From Hoot Require Import Base Chunk Body Httparse Parser Url Request Call Flow.
-From Hoot.proofs Require Import BytesLemmas C17_proofs C02_proofs C02_analysis.
+From Hoot.proofs Require Import AfterErr BytesLemmas C17_proofs C02_proofs C02_analysis.
 Open Scope N_scope.
 
 (** The amended request a flow carries. *)
@@ -467,8 +467,14 @@ Proof.
   destruct (negb ok); [discriminate|]. intros H. inversion H; subst. apply fext_refl.
 Qed.
 
-(** One operation of an exchange, in any state, that returns a flow (a failed operation returns
-    none: the caller keeps the flow it had). *)
+(** A failed body read leaves the flow as [recv_body_after_err] (the chunked decoder keeps the state
+    it reached, proofs/AfterErr.v): the request is not touched. *)
+Lemma recv_body_after_err_fext f input cap : fext f (recv_body_after_err f input cap).
+Proof. unfold fext, req_of. apply extends_eq. apply recv_body_after_err_req. Qed.
+
+(** One operation of an exchange, in any state, that returns a flow or changes the one the caller
+    holds (a failed operation returns none and the caller keeps the flow it had -- except a failed
+    body read, which leaves the body decoder in the state it had reached: [fo_read_err]). *)
 Inductive flow_op : inner -> inner -> Prop :=
 | fo_header f k v f' : prepare_header f k v = Ok f' -> flow_op f f'
 | fo_despite f f' : send_body_despite_method f = Ok f' -> flow_op f f'
@@ -482,6 +488,7 @@ Inductive flow_op : inner -> inner -> Prop :=
 | fo_try_response f input f' used got : recv_try_response f input = Ok (f', used, got) -> flow_op f f'
 | fo_rr_proceed f t f' : recv_response_proceed f = Ok (Some (t, f')) -> flow_op f f'
 | fo_read f input cap f' i o : recv_body_read f input cap = Ok (f', i, o) -> flow_op f f'
+| fo_read_err f input cap e : recv_body_read f input cap = Err e -> flow_op f (recv_body_after_err f input cap)
 | fo_stop f b f' : recv_body_stop f b = Ok f' -> flow_op f f'
 | fo_rb_proceed f t f' : recv_body_proceed f = Ok (Some (t, f')) -> flow_op f f'.
 
@@ -500,6 +507,7 @@ Proof.
   - eapply recv_try_response_fext; eassumption.
   - eapply recv_response_proceed_fext; eassumption.
   - eapply recv_body_read_fext; eassumption.
+  - apply recv_body_after_err_fext.
   - eapply recv_body_stop_fext; eassumption.
   - eapply recv_body_proceed_fext; eassumption.
 Qed.
